@@ -238,7 +238,7 @@ def procInstr (cfg : HtmlCfg) (st : HSt) (target data : Str) : HSt × List HTok 
   let (st, p) := writeParentTagEnd st
   let o := if shouldIndent cfg st then indentToks cfg st else []
   ({ st with startNewLine := true },
-   p ++ o ++ [HTok.t (.pi target data)] ++ (if st.elementLevel = 0 then [HTok.t .hnl] else []))
+   p ++ o ++ [HTok.t (.pi target data)] ++ (if st.elementLevel == 0 then [HTok.t .hnl] else []))
 
 def endDocument (cfg : HtmlCfg) (st : HSt) : List HTok :=
   if cfg.doIndent && !st.isprevtext then [HTok.t .nl] else []
